@@ -121,7 +121,10 @@ class QueryParser(object):
 
         # Syntactical analysis.
         self._ignored = [] # Ignored words in the query, for parseQueryEx
-        tree = self._parseOrExpr()
+        try:
+            tree = self._parseOrExpr()
+        except RecursionError:
+            raise parsetree.ParseError("Query is nested too deeply")
         self._require(_EOF)
         if tree is None:
             raise parsetree.ParseError(
